@@ -480,6 +480,92 @@ fn free_round_c02(seed: u64, pm: u64) -> Result<(u64, u64, u64), (&'static str, 
     Ok(tot)
 }
 
+/// the same round on the async-lock flavour (writers drive their futures with a park/unpark executor)
+fn free_round_c02_async(seed: u64, pm: u64) -> Result<(u64, u64, u64), (&'static str, String)> {
+    install_hook();
+    let mut rng = Rng::new(seed);
+    let n_subs = rng.range(1, 3);
+    let n_writers = rng.range(1, 2);
+    let sets = if small() { rng.range(1, 4) } else { rng.range(1, 12) };
+    let quiesce = Arc::new(Quiesce(AtomicBool::new(false)));
+    let ob: SharedObservable<u64, AsyncLock> = SharedObservable::new_async(0u64);
+    let mut sub_threads = vec![];
+    for k in 0..n_subs {
+        let mut s = block_on_park(ob.subscribe());
+        let q = quiesce.clone();
+        let sseed = mix(seed, 100 + k as u64);
+        sub_threads.push(std::thread::spawn(move || -> Result<(u64, u64, u64), (&'static str, String)> {
+            set_free_mode(sseed, pm);
+            let (mut ready, mut pend, mut wakes) = (0u64, 0u64, 0u64);
+            let mut last = 0u64;
+            loop {
+                let (flag, w) = pause_waker(true);
+                let mut cx = Context::from_waker(&w);
+                match std::pin::Pin::new(&mut s).poll_next(&mut cx) {
+                    Poll::Ready(Some(v)) => {
+                        ready += 1;
+                        if v < last {
+                            return bad("C16", format!("async subscriber {k} saw {v} after {last}: values went backwards"));
+                        }
+                        last = v;
+                    }
+                    Poll::Ready(None) => break,
+                    Poll::Pending => {
+                        pend += 1;
+                        loop {
+                            if flag.woken() {
+                                wakes += 1;
+                                break;
+                            }
+                            if q.get() {
+                                if flag.woken() {
+                                    wakes += 1;
+                                    break;
+                                }
+                                let (flag2, w2) = pause_waker(false);
+                                let mut cx2 = Context::from_waker(&w2);
+                                let r = std::pin::Pin::new(&mut s).poll_next(&mut cx2);
+                                let _ = flag2;
+                                return match r {
+                                    Poll::Ready(x) => bad("C02", format!("async subscriber {k}: lost wakeup - Pending, never woken, yet a later poll answers Ready({x:?})")),
+                                    Poll::Pending => bad("C03", format!("async subscriber {k}: every owner is gone but the stream is still Pending")),
+                                };
+                            }
+                            std::thread::park_timeout(Duration::from_millis(2));
+                        }
+                    }
+                }
+            }
+            clear_mode();
+            Ok((ready, pend, wakes))
+        }));
+    }
+    let mut writers = vec![];
+    for wi in 0..n_writers {
+        let c = ob.clone();
+        let wseed = mix(seed, 7 + wi as u64);
+        writers.push(std::thread::spawn(move || {
+            set_free_mode(wseed, pm);
+            for _ in 0..sets {
+                block_on_park(c.update(|v| *v += 1));
+            }
+            drop(c);
+            clear_mode();
+        }));
+    }
+    drop(ob);
+    for w in writers {
+        w.join().map_err(|_| ("C02", "writer thread panicked".to_string()))?;
+    }
+    quiesce.set();
+    let mut tot = (0, 0, 0);
+    for t in sub_threads {
+        let r = t.join().map_err(|_| ("C02", "subscriber thread panicked".to_string()))??;
+        tot = (tot.0 + r.0, tot.1 + r.1, tot.2 + r.2);
+    }
+    Ok(tot)
+}
+
 pub fn run_free_c02(prop: &str, p: &Params, n: u64) -> Outcome {
     let seed = p.seed;
     let gen_name = "free-c02";
@@ -487,8 +573,11 @@ pub fn run_free_c02(prop: &str, p: &Params, n: u64) -> Outcome {
     let mut out = p.cases(gen_name, n, |i, out| {
         out.ev.evaluations += 1;
         let s = mix(seed, mix(hash_of(&gen_name), i));
-        match free_round_c02(s, 300) {
+        let asyncfl = i % 3 == 2;
+        let r = if asyncfl { free_round_c02_async(s, 300) } else { free_round_c02(s, 300) };
+        match r {
             Ok((ready, pend, wakes)) => {
+                out.ev.count(if asyncfl { "free_rounds_async_lock" } else { "free_rounds_sync" });
                 out.ev.add("free_polls_ready", ready);
                 out.ev.add("free_polls_pending", pend);
                 out.ev.add("free_wakes_observed", wakes);
@@ -497,11 +586,11 @@ pub fn run_free_c02(prop: &str, p: &Params, n: u64) -> Outcome {
                 }
             }
             Err((vp, what)) => {
-                if vp == prop {
+                if vp == prop || (asyncfl && prop == "C16") {
                     out.violations.push(Violation {
                         property: prop.to_string(),
                         case: json!({"gen": gen_name, "case": i, "seed": seed}),
-                        history: vec![format!("free-running round, round seed {s}")],
+                        history: vec![format!("free-running round ({}), round seed {s}", if asyncfl { "async-lock" } else { "sync" })],
                         what,
                     });
                 } else {
@@ -1015,6 +1104,8 @@ fn round_w3(seed: u64, pm: u64) -> Result<(usize, usize), String> {
     }
     let holder = ob.clone();
     let probe = ob.clone();
+    let mut hsub = ob.subscribe();
+    let sub_guard = rng.chance(1, 2);
     let mut holds: Vec<(u64, u64)> = vec![];
     set_free_mode(mix(seed, 77), pm);
     let mut err: Option<String> = None;
@@ -1034,6 +1125,21 @@ fn round_w3(seed: u64, pm: u64) -> Result<(usize, usize), String> {
             drop(g);
             if v2 != v1 + (1 << 50) {
                 err = Some(format!("the value changed under a write guard: {v1:#x} + 2^50 != {v2:#x}"));
+            }
+            holds.push((t2, t3));
+        } else if sub_guard {
+            let g = if rounds % 2 == 0 { hsub.read() } else { hsub.next_ref_now() };
+            let t2 = clock.tick();
+            let v1 = *g;
+            if probe.try_write().is_ok() {
+                err = Some("try_write succeeded while a subscriber's read guard is alive".into());
+            }
+            spin(60);
+            let v2 = *g;
+            let t3 = clock.tick();
+            drop(g);
+            if v1 != v2 {
+                err = Some(format!("the value changed while a subscriber's read guard was alive: {v1:#x} -> {v2:#x}"));
             }
             holds.push((t2, t3));
         } else {
